@@ -80,7 +80,23 @@ impl Regions {
     pub(crate) fn set_min_len(&mut self, len: usize) -> Result<()> {
         let file_len = self.file_len()?;
         if file_len < len {
+            #[cfg(feature = "verif")]
+            crate::verif::io(
+                crate::verif::FileKind::Regions,
+                crate::verif::IoKind::SetLen,
+                len,
+                0,
+                &[],
+            )?;
             self.file.set_len(len as u64)?;
+            #[cfg(feature = "verif")]
+            crate::verif::io(
+                crate::verif::FileKind::Regions,
+                crate::verif::IoKind::Map,
+                0,
+                len,
+                &[],
+            )?;
             self.mmap = create_mmap(&self.file)?;
         }
         Ok(())
@@ -180,6 +196,14 @@ impl Regions {
     }
 
     pub(crate) fn sync_data(&self) -> Result<()> {
+        #[cfg(feature = "verif")]
+        crate::verif::io(
+            crate::verif::FileKind::Regions,
+            crate::verif::IoKind::Sync,
+            0,
+            0,
+            &[],
+        )?;
         self.file.sync_data()?;
         Ok(())
     }
@@ -187,6 +211,14 @@ impl Regions {
     pub(crate) fn write_at(&self, index: usize, data: &[u8]) {
         debug_assert_eq!(data.len(), SIZE_OF_REGION_METADATA);
         let offset = index * SIZE_OF_REGION_METADATA;
+        #[cfg(feature = "verif")]
+        crate::verif::io_note(
+            crate::verif::FileKind::Regions,
+            crate::verif::IoKind::Write,
+            offset,
+            data.len(),
+            data,
+        );
         write_to_mmap(&self.mmap, offset, data);
     }
 
